@@ -72,7 +72,7 @@ CLAIMS = {
             "fold, case-insensitivity of the key, representative spec = DSL rows per signature branch. Every (class, constructor) pair and "
             "spelling is exercised differentially (parser model vs implementation, constructor table vs DSL objects).",
             "DESIGN.md section 7 C09"),
-    "C10": ("11 theorems (ValidaProofs/C10.lean): bare parts, long form = dotted shorthand, key/index equality specs equal the API parts, "
+    "C10": ("22 theorems (ValidaProofs/C10.lean, C10Spec.lean): headline `C10_part_spec_is_api`: for every part kind, a mapping spec with the type, at most one key, one index and one value entry (long form or dotted shorthand) and a label, in ANY order of its entries, parses to the part the constructor builds from the same conditions (identical up to the order of the two operands of the top `&`; `==` whenever the API part equals itself); `C10_path_spec_is_api` / `C10_path_spec_suffixes_is_api` lift this to lists of part specs and to the modifier suffixes, `C10_rule_spec_is_api` to rule specs. With three or more components equality is false (D26, kernel-checked example). Also: bare parts, long form = dotted shorthand, key/index equality specs equal the API parts, "
             "primitive part specs = DataPath(*prims), mapping parts make the path non-concrete, suffix tokens = modifier methods in both orders "
             "with aliases, path strings, rule fields and casts, doc normalisation. YAML text is loaded by ruamel (a parameter) and fed to the "
             "same parser in the differential run.", "DESIGN.md section 7 C10"),
